@@ -664,6 +664,33 @@ def _one_resample(c):
     i = np.argwhere(yu != exp)
     bad(f'resample:{c["choice"]}:positions', f'first differing index {i[0].tolist() if len(i) else None}: '
                                              f'code {yu[tuple(i[0])] if len(i) else None} spec {exp[tuple(i[0])] if len(i) else None}')
+  # orography helpers are the same interpolation / clipping applied to a nodal field
+  from dinosaur import primitive_equations as pe
+  if hasattr(pe, 'filtered_modal_orography') and hasattr(pe, 'truncated_modal_orography'):
+    nodal = np.asarray(src.horizontal.to_nodal(jnp.asarray(x[0])))
+    scale0 = float(np.abs(x[0]).max()) + 1.0
+    got = np.asarray(pe.filtered_modal_orography(nodal, dst, src))
+    want = yu[0]
+    msk = np.ones_like(want, bool) if (c['choice'] == 'up' or mult == 0) else (exp[0] != 0)
+    if got.shape != want.shape or not np.all(np.abs(got - want)[msk] <= 2048 * EPS * scale0):
+      bad(f'orography:filtered:{c["choice"]}', f'filtered_modal_orography differs from the spectral interpolation of the same field by '
+                                                f'{np.abs(got - want)[msk].max() if got.shape == want.shape else "shape"}')
+    L = c['src']['L']
+    for nclip in (1, 2):
+      if nclip >= L:
+        continue
+      got = np.asarray(pe.truncated_modal_orography(nodal, src, wavenumbers_to_clip=nclip))
+      want = x[0].copy()
+      want[:, L - nclip:] = 0
+      if got.shape != want.shape or not np.all(np.abs(got - want) <= 2048 * EPS * scale0):
+        j = np.unravel_index(np.argmax(np.abs(got - want)), want.shape) if got.shape == want.shape else None
+        bad(f'orography:truncated:{nclip}', f'truncated_modal_orography(n={nclip}) at {j}: code {got[j] if j else got.shape}, '
+                                            f'spec {want[j] if j else want.shape} (total wavenumbers >= {L - nclip} must vanish, the rest is kept)')
+    try:
+      pe.truncated_modal_orography(nodal[:-1], src)
+      bad('orography:shape_accepted', 'nodal orography of the wrong shape accepted')
+    except ValueError:
+      pass
   if c['choice'] == 'up':
     # the reverse pair must choose down-sampling and restore the input bit for bit
     back_fn = cs.get_spectral_interpolate_fn(dst, src, expect_same_vertical=same)
